@@ -5,6 +5,7 @@ package sm2
 import (
 	"bytes"
 	"context"
+	crand "crypto/rand"
 	"fmt"
 	"io"
 	"math/big"
@@ -43,6 +44,39 @@ func TestVerifC19(t *testing.T) {
 	zaReal, _ := ref.SM2ZA(id, px, py)
 	eZa := ref.SM2E(za, msg)
 	eID := ref.SM2E(zaReal, msg)
+
+	// the source is the process-wide crypto/rand.Reader VARIABLE, which a program may have replaced (a DRBG in front of a
+	// device, a test double): handed in as the argument it is a caller-supplied source like any other, and its failure
+	// must stop key generation and signing (runs before anything else, the variable is global state)
+	{
+		saved := crand.Reader
+		for i, good := range []int{0, 1, 16, 31, 32 + 16, 64 + 31} {
+			src := rng.Bytes(good)
+			for j := 0; j+32 <= good; j += 32 {
+				copy(src[j:], bytes.Repeat([]byte{0xff}, 32)) // whole candidates before the failure are rejected ones
+			}
+			for ei, entry := range []string{"GenerateKey", "SignHashed"} {
+				rd := newScript(src)
+				rd.failErr = []error{nil, errCustom, syscall.EAGAIN}[(i+ei)%3]
+				crand.Reader = io.Reader(rd)
+				var a, b []byte
+				var err error
+				p, pm, _, _ := hk.Try(func() {
+					if entry == "GenerateKey" {
+						_, a, b, err = GenerateKey(crand.Reader)
+					} else {
+						a, b, err = SignHashed(crand.Reader, priv, e)
+					}
+				})
+				crand.Reader = saved
+				if p || err == nil || a != nil || b != nil {
+					r.Violation("result-returned-although-source-failed:"+entry+":source-is-the-replaced-crypto-rand-Reader", hk.D{"bytes_before_failure": good, "stream": hk.Hex(src), "a": hexOrNil(a), "b": hexOrNil(b), "error": errStr(err), "panic": pm})
+				}
+				r.Eval(fmt.Sprintf("%s:source=replaced-crypto/rand.Reader,fails-after=%d", entry, good))
+			}
+		}
+		crand.Reader = saved
+	}
 
 	over := [][]byte{ref.B32(nI), ref.B32(new(big.Int).Add(nI, bi(1))), ref.B32(new(big.Int).Sub(b256, bi(1))), ref.B32(nm1)}
 	// n-1 is rejected by key generation; for signing it is a legal nonce, so the
